@@ -59,7 +59,9 @@ def run(tier, seed):
                  "bound, strictly decreasing remainder, input-driven with exit on the exhausted outcome, terminated-string/array "
                  "scan, list walk; listed exceptions with reasons and support rules), recursion check over the call graph, and "
                  "allocation-size provenance in lib/ (sizes are linear forms over admissible symbols; the 1 MiB ceiling is an "
-                 "available fact at the header reallocation; decoder state size is summed over all decoder types). Claimed in part: "
+                 "available fact at the header reallocation; decoder state size is summed over all decoder types). Counted loops whose counter is narrower than its "
+                 "bound need the bound to fit (proved or listed); per-member decoder objects are released before the next member; the basic reader never hands the previous "
+                 "member out again after a failed skip. Claimed in part: "
                  "does not decide the linear step budget or heap peak as numbers; termination of read-driven loops assumes the "
                  "stream reports exhaustion (finite input), and for endless pm1 input rests on the declared-length clamp (C14.R2).")
     with Context(tier) as ctx:
